@@ -200,6 +200,8 @@ let rec parser_of_sexp (s : sexp) : parser0 =
   | L [A "pure-with"; r] -> PPureWith (res_of r)
   | L [A "fail"; m] -> PFail (hx m)
   | L [A "boxed"; p] -> PBoxed (parser_of_sexp p)
+  | L [A "complete"; p; _] -> parser_of_sexp p          (* completion hooks do not change parsing *)
+  | L [A "complete-shell"; p; _] -> parser_of_sexp p
   | _ -> failwith "bad parser"
 
 and plist_of (ps : sexp list) : plist =
